@@ -525,8 +525,9 @@ static void comp_laws(void)
         if (!obj[i]) continue;
         if (c[i][i] != 0) FAIL("MISMATCH", "comp-reflexive", okind[i], "comp(a,a) returned %d", c[i][i]);
         if (sgn(SPIF_OBJ_COMP(obj[i], (spif_obj_t)NULL)) != 1) FAIL("MISMATCH", "comp-null", okind[i], "comp(a,NULL) is not GREATER");
-        if (okind[i] == K_STR && sgn(spif_str_comp((spif_str_t)NULL, SPIF_STR(obj[i]))) != -1) FAIL("MISMATCH", "comp-null", okind[i], "comp(NULL,a) is not LESS");
-        if (okind[i] == K_MBUFF && sgn(spif_mbuff_comp((spif_mbuff_t)NULL, SPIF_MBUFF(obj[i]))) != -1) FAIL("MISMATCH", "comp-null", okind[i], "comp(NULL,a) is not LESS");
+        /* NULL on the left: the class's own comparison function, reached the way SPIF_OBJ_COMP reaches it, with no object in front */
+        if (sgn((spif_cmp_t)(long)((SPIF_OBJ_CLASS(obj[i])->comp)((spif_obj_t)NULL, obj[i]))) != -1) FAIL("MISMATCH", "comp-null", okind[i], "comp(NULL,a) is not LESS");
+        probe_hit("comp_null_first");
         for (int j = 0; j < NSLOT; j++) {
             if (c[i][j] == 100 || i == j) continue;
             probe_hit("comp_pair");
